@@ -278,7 +278,6 @@ MANIFEST_TEXT["C14"] = {
 PROPS["C19"] = {
     "lean_modules": ["EcModel.Props.C19", "EcModel.Props.C19Impls"],
     "harness": ["c19"],
-    "known_keys_expected": ["c19/impl-tuple-varlen-short-panic"],
     "t1_facts": ["wire layout", "Layouts.lean", "WireMacro.lean"],
     "modelled": "ethercrab-wire-derive: help.rs bit_width_attr; parse_struct.rs parse_struct (width table, pre/post skip, skip, bit_start/"
                 "bit_end/bytes/bit_offset, the three validity errors, total width); generate_struct.rs generate_struct_write/read/"
@@ -324,8 +323,10 @@ PROPS["C19"] = {
             "of the model): c19/impl-panic (never a panic), c19/impl-decode (the answer is what the declared element layout says: "
             "the complete elements present, at most N, little-endian, back to back; the whole buffer as a string iff it is "
             "well-formed UTF-8 of at most N bytes, checked by decoding scalar values; the first N array elements or "
-            "ReadBufferTooShort; tuple components at consecutive offsets), c19/impl-packed-len, c19/impl-buffer-len, and the known "
-            "class c19/impl-tuple-varlen-short-panic. "
+            "ReadBufferTooShort; tuple components at consecutive offsets, a component content with fewer bytes than its packed "
+            "length although bytes were left is refused), c19/impl-packed-len, c19/impl-buffer-len, and "
+            "c19/impl-tuple-varlen-short-panic (regression classifier of the repaired tuple defect; its witnesses stay in the "
+            "corpus and must answer ReadBufferTooShort). "
             "non-trivial = value-level case whose subject is a struct with >= 2 non-skipped fields of which at least one does "
             "not start or end on a byte boundary, or an enum with alternatives/catch-all/default, or an `impl` family case on a "
             "vector/string/array/tuple whose buffer length differs from the packed length; distinct = distinct case line",
@@ -340,8 +341,8 @@ PROPS["C19"] = {
         "buffers are byte strings (every element < 256)",
         "hand-written impls: element types are not zero-sized (heapless::Vec<(), N> and [(); N] panic in chunks_exact(0) for "
         "every buffer: heapless_vec_zero_size_panics, array_zero_size_panics) and their own decoders do not panic; the tuple "
-        "theorems assume lawful components (tuple_unpack_total_counterexample: a heapless::Vec / heapless::String component "
-        "breaks it, known finding c19/impl-tuple-varlen-short-panic); N * PACKED_LEN fits in usize; core::str::from_utf8 accepts "
+        "LAYOUT theorems (fields, short_error, pack, roundtrip) assume lawful components, tuple_unpack_total (never a panic) "
+        "holds for every modelled component incl. heapless::Vec / heapless::String; N * PACKED_LEN fits in usize; core::str::from_utf8 accepts "
         "exactly the well-formed sequences of the Unicode standard (validated by the differential run only)",
     ],
 }
@@ -372,22 +373,24 @@ MANIFEST_TEXT["C19"] = {
             "heapless_string_cut_code_point; array_unpack_exact (fewer than N*size bytes -> ReadBufferTooShort, else the first N "
             "elements, never a panic), array_impl_is_codec_array (the line-by-line decoder IS the Codec.array of the struct "
             "theorems, so into_array never fails), array_length_error_unreachable, array_roundtrip; tuple_unpack_fields "
-            "(component i is decoded from offset PACKED_LEN_0+..+PACKED_LEN_{i-1}), tuple_unpack_short_error, tuple_unpack_total, "
+            "(component i is decoded from offset PACKED_LEN_0+..+PACKED_LEN_{i-1}), tuple_unpack_short_error, tuple_unpack_total "
+            "(EVERY buffer, EVERY tuple of modelled components - lawful ones, (), heapless::Vec / [T; N] over modelled elements "
+            "of non-zero size, heapless::String: a value or an error, never a panic; modelled_dec_total), "
             "tuple_pack_fields (pack_to_slice_unchecked / pack_to_slice store component i's encoding at that offset and leave the "
             "rest of the destination alone), tuple_pack_is_codec_tuple, tuple_pack_short (WriteBufferTooShort / the contractual "
             "panic), tuple_roundtrip; unit_and_bool_impls, slice_u8_pack; buffer_sizes and array_buffer_shorter_counterexample "
             "([$ty; N]::buffer() has N bytes for PACKED_LEN = N*size, so a wide array can never be unpacked from its own buffer: "
-            "the cause of c15/word-array-buffer). Counterexamples kept visible: tuple_unpack_total_counterexample "
-            "(<(heapless::Vec<u8, 4>, u8)>::unpack_from_slice(&[1, 2]) and <(heapless::String<4>, u8)>::unpack_from_slice(b\"ab\") "
-            "panic: known finding c19/impl-tuple-varlen-short-panic, replayed from the corpus on every run), "
+            "the cause of c15/word-array-buffer). The former tuple defect (the walk sliced &buf[PACKED_LEN..] unchecked and panicked "
+            "behind a heapless::Vec / heapless::String component on a short buffer) is repaired (fix-c19-tuple-short: "
+            "buf.get(PACKED_LEN..).ok_or(ReadBufferTooShort)?); its witnesses <(heapless::Vec<u8, 4>, u8)>::unpack_from_slice(&[1, 2]), "
+            "<(heapless::String<4>, u8)>::unpack_from_slice(b\"ab\"), <(u8, heapless::Vec<u8, 2>)>::unpack_from_slice(&[1, 2]) are "
+            "tuple_unpack_short_heapless_fixed and stay in the harness corpus. Oddity kept visible: "
             "tuple_after_string_never_decodes.",
     "note": "Trusted: Lean kernel; hand translation of the macro's parse/generate code and of impls.rs (validated by compiling "
             "hundreds of generated declarations with the real macro per run and diffing every answer, plus accept/reject agreement "
             "on invalid declarations through the macro's own parse functions); rustc's own checks (types, literal ranges) are "
             "outside the model. Partial: zero-width fields, arrays and heapless vectors of zero-sized elements (chunks_exact(0) "
-            "panics), hand-written impls inside derived structs (bitflags wrappers, PduFlags) are opaque; tuples with a "
-            "heapless::Vec / heapless::String component panic on short buffers (known finding, not repaired: no in-crate type is "
-            "such a tuple); heapless' and core's own code (push, try_from, from_utf8, chunks_exact) is modelled by its documented "
+            "panics), hand-written impls inside derived structs (bitflags wrappers, PduFlags) are opaque; heapless' and core's own code (push, try_from, from_utf8, chunks_exact) is modelled by its documented "
             "behaviour and tied by the differential run (the `impl` case family calls the real impls under catch_unwind).",
     "technique": "Lean 4 proof (bit-level invariant of the generated write loop, extensionality on bits) + differential correspondence "
                  "on freshly generated programs compiled with the real proc-macro",
